@@ -102,6 +102,12 @@ def check(cx):
             e = cx.analyse(f_ev, subst=hit[1], arg_values=[mk, None], arg_names=['self', 'v'], key=('c09', inst))
             nf, F, L, err = log_nf(e.ret, 'v')
             efile, eline = fn_loc(f_ev)
+            from .rounding import data_divisors
+            # (the quartic form's closed-form tail divides by x behind its switch points: C10 owns that evaluator)
+            dd = data_divisors(e.ret) if res_ty.get('path') != 'log_poly::IntOfLogPoly4' else []
+            rep.ob('anti', inst + ':divisors', not dd, 'F is computed without a quotient by a coefficient or the argument',
+                   fn=f_ev['path'], file=efile, line=eline,
+                   msg='evaluate(indefinite(Log(p)), t) divides by %s: zero there gives ±∞ / NaN although the antiderivative is finite' % (term_str(dd[0])[:100] if dd else ''))
             if err:
                 rep.ob('anti', inst, False, err, fn=f_ev['path'], file=efile, line=eline)
                 return
